@@ -12,7 +12,7 @@ CFG = dict(
     classify=classify,
     imports=["From Verif.Common Require Import Packet PolicyRef Labels.", "From Verif.C05 Require Import Model Spec."],
     checker="check_case",
-    n=dict(quick=120, thorough=10000),
+    n=dict(quick=120, thorough=3000),
     shard=15,
     rule="histories of 10-37 datastore updates over 4 profiles, 4 policies, 3 tiers, 3 workload + 2 host endpoints, fed through "
          "the real ValidationFilter into the real ActiveRulesCalculator (3 of 4 cases: callbacks compared message for message) or "
